@@ -22,8 +22,8 @@ from .c16 import make_eos
 RULE = ("random parameter sets common to both routes (all geometries, gammas, initial states, times) and random "
         "points away from wave positions.  distinct = (route, class pair, branch, case); non-trivial = the compared "
         "field is not identically zero.")
-ASSUME = ["GenEOS is accurate to its internal grid (points within 3 cells of a wave excluded; 2e-5 of the field scale "
-          "elsewhere, fans to their table resolution)", "series routes share the same truncation (same Nsum)"]
+ASSUME = ["GenEOS is accurate to its internal grid (points within 3 cells of a wave excluded; 2e-5 (speeds) / 5e-5 (fields) of the "
+          "field scale, plus three times the change of the GenEOS result itself under a doubling of its table resolution where that base is exceeded)", "series routes share the same truncation (same Nsum)"]
 
 F4 = ("density", "velocity", "pressure", "specific_internal_energy")
 
@@ -76,13 +76,47 @@ def run_rm(ctx, p):
     ctx.observe("route.riemann", "IGEOS_Solver~GenEOS_Solver", pg == pat, branch="pattern " + pat, detail=dict(igeos=pat, geneos=pg, st=st))
     cs = math.sqrt(st["gl"] * st["pl"] / st["rl"]) + math.sqrt(st["gr"] * st["pr"] / st["rr"])
     du = "du=0" if st["ul"] == st["ur"] else "du!=0"
-    # wave speeds of the two routes
-    if len(sg.Vregs) == len(V):
-        dv = float(np.max(np.abs(np.asarray(sg.Vregs) - V))) / cs
-        ctx.observe("route.riemann", "IGEOS_Solver~GenEOS_Solver", dv <= 2e-5, branch="wave speeds %s %s" % (pat, du), measure=dv, tol=2e-5,
-                    detail=dict(igeos=V.tolist(), geneos=np.asarray(sg.Vregs).tolist(), st=st))
-    cmp(ctx, "route.riemann", "IGEOS_Solver~GenEOS_Solver", "fields %s %s" % (pat, du), A, B, F4, 5e-5,
-        detail=dict(st=st, xd0=xd0, t=t), scales=dict(velocity=cs))
+    # "Agreement is to the accuracy of the less accurate route": the general-EOS route interpolates linearly in tables of
+    # num_int_pts pressures (spacing p0/1e4 below and 10 max(pl,pr)/1e4 above each initial pressure), which is coarse for
+    # strong rarefactions and very unequal pressures.  Its accuracy is *measured*, not modelled: where the routes differ
+    # by more than the base tolerance the general route is run again with twice the table resolution (public parameter
+    # num_int_pts) and its own change (second order: 3/4 of its error; x3 allowed) is what the ideal-gas route may differ by.
+    base_v, base_f = 2e-5, 5e-5
+    Vg = np.asarray(sg.Vregs, float)
+    same = len(Vg) == len(V)
+    dv = float(np.max(np.abs(Vg - V))) / cs if same else None
+    fd = {}
+    for f in F4:
+        sc = cs if f == "velocity" else max(float(np.nanmax(np.abs(A[f]))), float(np.nanmax(np.abs(B[f]))), 1e-300)
+        fd[f] = np.abs(np.asarray(A[f], float) - np.asarray(B[f], float)) / sc
+    worst_f = max(fd, key=lambda f: float(np.nanmax(fd[f])))
+    df = float(np.nanmax(fd[worst_f]))
+    allow_v = allow_f = 0.0
+    refined = False
+    if (same and dv > base_v) or df > base_f or any(np.isnan(fd[f]).any() for f in F4):
+        refined = True
+        ctx.count("geneos_self_convergence_runs")
+        sg2 = RC.make_solver(ctx, "GenEOS", st, xd0, a, b, extra=dict(num_int_pts=20001))
+        B2 = ctx.call(sg2, x, t)
+        Vg2 = np.asarray(sg2.Vregs, float)
+        if same and len(Vg2) == len(Vg):
+            allow_v = 3.0 * float(np.max(np.abs(Vg2 - Vg))) / cs
+        worst_excess = -1.0
+        for f in F4:
+            sc = cs if f == "velocity" else max(float(np.nanmax(np.abs(A[f]))), float(np.nanmax(np.abs(B[f]))), 1e-300)
+            al = 3.0 * np.abs(np.asarray(B2[f], float) - np.asarray(B[f], float)) / sc
+            ex = fd[f] - al
+            ex = np.where(np.isnan(ex), np.inf, ex)
+            if float(np.max(ex)) > worst_excess:
+                worst_excess, worst_f = float(np.max(ex)), f
+                k = int(np.argmax(ex))
+                df, allow_f = float(fd[f][k]) if not np.isnan(fd[f][k]) else float("inf"), float(al[k])
+    if same:
+        ctx.observe("route.riemann", "IGEOS_Solver~GenEOS_Solver", dv <= base_v + allow_v, branch="wave speeds %s %s" % (pat, du), measure=dv,
+                    tol=base_v + allow_v, detail=dict(igeos=V.tolist(), geneos=Vg.tolist(), st=st, refined=refined, geneos_self_change_x2=allow_v))
+    nontriv = any(np.any(np.asarray(A[f]) != 0) for f in F4)
+    ctx.observe("route.riemann", "IGEOS_Solver~GenEOS_Solver", df <= base_f + allow_f, branch="fields %s %s" % (pat, du), measure=df, tol=base_f + allow_f,
+                nontrivial=nontriv, detail=dict(st=st, xd0=xd0, t=t, worst_field=worst_f, refined=refined, geneos_self_change_x2=allow_f))
 
 
 # ---- Noh / Cog19 / black-box Noh ---------------------------------------------------------------------------------
